@@ -11,6 +11,9 @@ Decided:
   R05.4  Limit.ok for an upper limit answers count < value; ok and inc index the counters with the
          same period function; the value is converted hours -> slots with the slot length
   R05.5  counters are reset by prepareScheduling before each scenario
+  R05.6  the daily / weekly period index is a difference of calendar DATES (not date-times)
+  R05.7  Limit.copy passes every constructor argument from the same-named field (per-scenario copies keep all settings)
+  R05.8  a slot is booked only under the task-limit fact for that slot and resource (shared with C03 R03.6)
 Not decided: the per-day / per-week sums themselves.
 """
 from __future__ import annotations
@@ -293,6 +296,105 @@ def run(ctx: Ctx):
     ctx.ob("R05.4", f"{setl.qual}: period table {dict((k, periods.get(k)) for k in exp)}", setl, ok,
            "dailymax = 1 day, weeklymax = 7 days, both upper limits" if ok else "period / direction table of dailymax / weeklymax changed",
            key="R05.4|setLimit|periods")
+
+    # ---------------------------------------------------------------- R05.6 period index = calendar-date difference
+    idxf = repo.func("Limit._idx_to_sb_idx")
+    from ..order import local_resolver
+    res_i = local_resolver(idxf.node)
+
+    def kind(e, depth=0):
+        """DT datetime | D date | ORD ordinal | TD | ?"""
+        if depth > 6:
+            return "?"
+        if isinstance(e, ast.Call) and isinstance(e.func, ast.Attribute):
+            if e.func.attr == "date" and not e.args:
+                return "D"
+            if e.func.attr == "toordinal":
+                return "ORD"
+            if e.func.attr == "replace" and any(k.arg in ("hour", "minute") for k in e.keywords):
+                return kind(e.func.value, depth + 1)
+        if isinstance(e, ast.Call) and (dotted(e.func) or "").split(".")[-1] == "timedelta":
+            return "TD"
+        if isinstance(e, ast.Attribute) and norm(e) in ("self.interval_start", "self.interval_end"):
+            return "DT"
+        if isinstance(e, ast.Name):
+            ks = {kind(v, depth + 1) for v in res_i(e)}
+            return ks.pop() if len(ks) == 1 else "?"
+        if isinstance(e, ast.BinOp) and isinstance(e.op, (ast.Add, ast.Sub)):
+            a, b = kind(e.left, depth + 1), kind(e.right, depth + 1)
+            if b == "TD":
+                return a
+            if a == "TD":
+                return b
+        return "?"
+    n_idx = 0
+    for r in returns(idxf):
+        from .common import enclosing_ifs
+        per = None
+        for (i, b) in enclosing_ifs(r, idxf.node):
+            if b == "T" and isinstance(i.test, ast.Compare) and norm(i.test.left) == "self.period":
+                try:
+                    per = eval(compile(ast.Expression(i.test.comparators[0]), "<const>", "eval"), {"__builtins__": {}})
+                except Exception:
+                    per = None
+        if per not in (86400, 604800):
+            continue
+        n_idx += 1
+        name = "daily" if per == 86400 else "weekly"
+        diffs = [x for x in ast.walk(r.value) if isinstance(x, ast.BinOp) and isinstance(x.op, ast.Sub)
+                 and {kind(x.left), kind(x.right)} <= {"D", "DT", "ORD"}]
+        if not diffs:
+            from ..model import Inconclusive
+            raise Inconclusive(f"Limit._idx_to_sb_idx: {name} index {norm(r.value)[:60]} is not a difference of two dates the rule can type")
+        for x in diffs:
+            ks = (kind(x.left), kind(x.right))
+            ok = ks in (("D", "D"), ("ORD", "ORD"))
+            ctx.ob("R05.6", f"{idxf.qual}: {name} index {norm(x)[:60]} : {ks[0]} - {ks[1]}", (idxf, r), ok,
+                   "period index is a difference of calendar dates" if ok else
+                   f"the {name} period index is a difference of date-TIMES ({ks[0]} - {ks[1]}): it counts elapsed 24-hour spans from the "
+                   "interval start's time of day, so a calendar day / week is split over two counters and the limit can be "
+                   "exceeded within one calendar period",
+                   key=key_of("R05.6", idxf, None, f"{name} index"))
+    if n_idx < 2:
+        raise AnchorMissing("Limit._idx_to_sb_idx: daily / weekly branches not found")
+
+    # ---------------------------------------------------------------- R05.7 copy() carries every constructor argument
+    cp = repo.func("Limit.copy")
+    init = repo.func("Limit.__init__")
+    params = [a.arg for a in init.node.args.args if a.arg != "self"] + [a.arg for a in init.node.args.kwonlyargs]
+    for r in returns(cp):
+        c = r.value
+        if not (isinstance(c, ast.Call) and (dotted(c.func) or "").split(".")[-1] in ("Limit", "__class__", "type")):
+            from ..model import Inconclusive
+            raise Inconclusive(f"Limit.copy returns {norm(c)[:60]}: not a constructor call the rule understands")
+        passed = {}
+        for i, a in enumerate(c.args):
+            if isinstance(a, ast.Starred):
+                from ..model import Inconclusive
+                raise Inconclusive("Limit.copy passes *args")
+            if i < len(params):
+                passed[params[i]] = a
+        for k in c.keywords:
+            if k.arg is None:
+                from ..model import Inconclusive
+                raise Inconclusive("Limit.copy passes **kwargs")
+            passed[k.arg] = k.value
+        # fields assigned after construction count too (c = Limit(...); c.x = self.x is not used today)
+        for prm in params:
+            a = passed.get(prm)
+            ok = a is not None and norm(a) == f"self.{prm}"
+            ctx.ob("R05.7", f"{cp.qual}: {prm} := {norm(a) if a is not None else '<default>'}", (cp, r), ok,
+                   "the per-scenario copy carries this setting of the declared limit" if ok else
+                   f"Limit.copy() does not pass self.{prm}: the copies the scheduler works with fall back to the default for "
+                   f"{prm} (e.g. open_ended=False: counters stop at the declared project end and the limit is not enforced beyond it)",
+                   key=key_of("R05.7", cp, None, f"copy {prm}"))
+    ctx.floor("R05.7", 9)
+    ctx.floor("R05.6", 2)
+
+    # ---------------------------------------------------------------- R05.8 booking guard (shared with C03 R03.6)
+    from .c03 import booking_guard_rule
+    booking_guard_rule(ctx, "R05.8")
+    ctx.floor("R05.8", 1)
 
     # ---------------------------------------------------------------- R05.5
     prep = repo.func("TaskScenario.prepareScheduling")
